@@ -93,7 +93,16 @@ def _only_observes(ctx, facts, fn):
         return bool(cf) and cf[-1][1] == "thread_local" and cf[-1][0] in (A.DISP, A.AD, A.DB)
 
     def mentions(t):
-        return any(isinstance(s_, tuple) and s_ and s_[0] == "field" and s_[2] == "thread_local" and s_[3] in (A.DISP, A.AD, A.DB) for s_ in subterms(t))
+        """the list itself occurs in the term - outside the answers of len / is_empty, which are plain numbers"""
+        if not isinstance(t, tuple) or not t:
+            return False
+        if t[0] == "field" and len(t) > 3 and t[2] == "thread_local" and t[3] in (A.DISP, A.AD, A.DB):
+            return True
+        if t[0] == "call":
+            c = ev.callee(t[1])
+            if c is not None and not c.local and c.name in OBSERVERS and len(t[2]) == 1 and is_list(t[2][0]):
+                return False
+        return any(mentions(x) for x in t[1:] if isinstance(x, tuple))
 
     seen = False
     for e in ends:
@@ -110,14 +119,9 @@ def _only_observes(ctx, facts, fn):
                         if x[2].local or not (x[2].name in OBSERVERS or x[2].name in VIEWS) or not is_list(a) or a is not x[3][0]:
                             return False
                         seen = seen or x[2].name in OBSERVERS
-        if e.ret is not None:
-            r = e.ret
-            # the answer may be computed from the length, but the list itself (or a view of it) must not leave
-            for s_ in subterms(r):
-                if isinstance(s_, tuple) and s_ and s_[0] == "field" and s_[2] == "thread_local" and s_[3] in (A.DISP, A.AD, A.DB):
-                    inside_len = any(Q.is_call(ev, u, n) and mentions(u) for u in subterms(r) for n in OBSERVERS)
-                    if not inside_len or Q.strip(ev, r) == s_:
-                        return False
+        # the answer may be computed from the length, but the list itself (or a view of it) must not leave
+        if e.ret is not None and mentions(e.ret):
+            return False
     return seen
 
 
